@@ -40,7 +40,10 @@ NFItem(v) ==
     [] v.k = "iris" -> ListOf(MapSeq(v.e, Iri))
     [] v.k = "list" -> ListOf([i \in 1..Len(v.e) |-> NFItem(v.e[i])])
     [] v.k = "obj" -> [k |-> "obj", g |-> v.g, ptr |-> TRUE, p |-> NFMap(Props(v.g), v.p)]
-NFMap(rows, p) == [t \in DOMAIN p |-> NFProp(RowKind(rows, t), p[t])]
+\* (a text list all of whose texts are empty is the empty normal form: absent)
+IsEmptyText(x) == x.k = "nlv" /\ \A i \in 1..Len(x.e) : x.e[i].t = ""
+\* (decided on the value as given, so that every property is normalised once: this definition is recursive through NFProp)
+NFMap(rows, p) == [t \in {u \in DOMAIN p : ~IsEmptyText(p[u])} |-> NFProp(RowKind(rows, t), p[t])]
 NFProp(kind, x) ==
   CASE kind = "item" -> LET y == NFItem(x) IN IF y.k = "list" /\ Len(y.e) = 1 THEN y.e[1] ELSE y
     [] kind = "items" -> NFItem(x)
